@@ -30,7 +30,8 @@ CLAMP = 12
 
 class S(BaseState):
     __slots__ = ('depth', 'rel', 'counter', 'cval', 'fresh', 'alias',
-                 'consts', 'flags', 'lvl_saved', 'lvl_dirty', 'trace',
+                 'consts', 'flags', 'lvl_saved', 'lvl_dirty', 'lvl_delta',
+                 'trace',
                  'cur_exc')
 
     def __init__(self):
@@ -44,6 +45,7 @@ class S(BaseState):
         self.flags = {}         # local -> truthiness decided on this path
         self.lvl_saved = frozenset()   # locals holding the entry level
         self.lvl_dirty = False
+        self.lvl_delta = 0             # relative changes through helpers
         self.trace = ()
         self.cur_exc = None
 
@@ -52,7 +54,8 @@ class S(BaseState):
                 tuple(sorted(self.alias.items())),
                 tuple(sorted(self.consts.items(), key=repr)),
                 tuple(sorted(self.flags.items())),
-                self.lvl_saved, self.lvl_dirty, self.cur_exc)
+                self.lvl_saved, self.lvl_dirty, self.cur_exc,
+                self.lvl_delta)
 
     def copy(self):
         n = S()
@@ -63,6 +66,7 @@ class S(BaseState):
         n.consts = dict(self.consts)
         n.flags = dict(self.flags)
         n.lvl_saved, n.lvl_dirty = self.lvl_saved, self.lvl_dirty
+        n.lvl_delta = self.lvl_delta
         n.trace = self.trace
         n.cur_exc = self.cur_exc
         return n
@@ -211,6 +215,7 @@ class BalanceDomain(Domain):
                 continue
             if isinstance(n, ast.Call):
                 if self.push_pop(n, st) is None and \
+                        self.level_helper(n) is None and \
                         not self.rm.call_benign(n, self.fi):
                     return True
             elif self.rm._ns_subscript(n):
@@ -229,7 +234,23 @@ class BalanceDomain(Domain):
         return False, None
 
     # ----------------------------------------------------------- effects
+    def level_helper(self, c):
+        """Relative change of the recursion level by a namespace method
+        (`md._enter()`): the net change of `self.level` the method makes on
+        every path, None if it is not such a method."""
+        if not (isinstance(c.func, ast.Attribute) and
+                isinstance(c.func.value, ast.Name)):
+            return None
+        return level_helpers(self.model).get(c.func.attr)
+
     def apply_calls(self, node, st):
+        lv = [c for c in calls_in_order(node)
+              if self.level_helper(c) is not None]
+        if lv:
+            st = st.copy()
+            for c in lv:
+                if c.func.value.id not in st.fresh:
+                    st.lvl_delta += self.level_helper(c)
         calls = [c for c in calls_in_order(node)
                  if self.push_pop(c, st) is not None or
                  self.helper_effect(c)]
@@ -429,6 +450,14 @@ class BalanceDomain(Domain):
 
     # ---------------------------------------------------------- branches
     def branch(self, test, st):
+        # a level helper called in the test (`if md._enter() > 200:`)
+        lv = [c for c in calls_in_order(test)
+              if self.level_helper(c) is not None and
+              c.func.value.id not in st.fresh]
+        if lv and not getattr(test, '_dt_lv_done', None) == id(st):
+            st = st.copy()
+            for c in lv:
+                st.lvl_delta += self.level_helper(c)
         # constants
         ok, v = self.const_of(test, st)
         if ok and not (isinstance(test, ast.Name) and test.id == st.counter
@@ -583,6 +612,52 @@ def pushing_functions(model):
     return out
 
 
+def level_helpers(model):
+    """Methods of the namespace class that change `self.level` by a
+    constant on every path: name -> net change."""
+    cached = getattr(model, '_dt_level_helpers', None)
+    if cached is not None:
+        return cached
+    out = {}
+    m_ = model.modules.get('_DocumentTemplate')
+    ci = m_.classes.get('TemplateDict') if m_ is not None else None
+    for name, fi in (ci.methods.items() if ci else ()):
+        if name.startswith('__'):
+            continue
+        stores = [n for n in own_nodes(fi.node)
+                  if isinstance(n, (ast.Assign, ast.AugAssign)) and any(
+                      norm(t) == 'self.level' for t in (
+                          n.targets if isinstance(n, ast.Assign)
+                          else [n.target]))]
+        if len(stores) != 1:
+            continue
+        st_ = stores[0]
+        k = None
+        if isinstance(st_, ast.AugAssign) and isinstance(
+                st_.value, ast.Constant) and isinstance(
+                    st_.value.value, int):
+            k = st_.value.value if isinstance(st_.op, ast.Add) else (
+                -st_.value.value if isinstance(st_.op, ast.Sub) else None)
+        elif isinstance(st_, ast.Assign) and isinstance(
+                st_.value, ast.BinOp) and isinstance(
+                    st_.value.right, ast.Constant) and isinstance(
+                    st_.value.right.value, int):
+            base = st_.value.left
+            is_level = norm(base) == 'self.level' or (
+                isinstance(base, ast.Name) and any(
+                    isinstance(d, ast.AST) and norm(d) == 'self.level'
+                    for d in model.local_defs(fi, base.id)))
+            if is_level:
+                k = st_.value.right.value if isinstance(
+                    st_.value.op, ast.Add) else (
+                    -st_.value.right.value if isinstance(
+                        st_.value.op, ast.Sub) else None)
+        if k:
+            out[name] = k
+    model._dt_level_helpers = out
+    return out
+
+
 def analyse_function(model, fi, counters, rm, helpers=None,
                      flag_helpers=None, init=None):
     dom = BalanceDomain(model, fi, rm, counters, helpers, flag_helpers)
@@ -672,7 +747,13 @@ def _rule_balance(model):
             obligated += 1
         level_writer = any(
             isinstance(n, ast.Attribute) and n.attr == 'level' and
-            isinstance(n.ctx, ast.Store) for n in own_nodes(fi.node))
+            isinstance(n.ctx, ast.Store) for n in own_nodes(fi.node)) or any(
+            isinstance(n, ast.Call) and isinstance(n.func, ast.Attribute)
+            and n.func.attr in level_helpers(model)
+            and isinstance(n.func.value, ast.Name)
+            for n in own_nodes(fi.node))
+        if fi.cls is not None and fi.name in level_helpers(model):
+            level_writer = False     # the helper itself: judged at its uses
         for o in exits:
             st = o.state
             node = o.node
@@ -693,7 +774,7 @@ def _rule_balance(model):
                            f'{"left on" if st.depth > 0 else "removed from"}'
                            ' the caller\'s namespace)',
                            node=node, ctx=fi, path=st.trace)
-            if level_writer and st.lvl_dirty:
+            if level_writer and (st.lvl_dirty or st.lvl_delta != 0):
                 r2.finding(fi.where, f'{label}: {cons}',
                            'recursion level was changed and is not restored '
                            f'at this {label} exit', node=node, ctx=fi,
